@@ -169,7 +169,7 @@ def gen_history(rng, opts=None):
     steps = []
     state = {"main": {}, "side": None}
     tagno = [0]
-    allow_links = opts.get("links", rng.random() < 0.35)
+    allow_links = opts.get("links", rng.random() < 0.3)
 
     def new_tag():
         tagno[0] += 1
@@ -229,13 +229,13 @@ def gen_history(rng, opts=None):
                     st[p] = dict(st[p])
                     st[p]["mode"] = "755" if st[p]["mode"] == "644" else "644"
                     ops.append({"o": "chmod", "path": p, "mode": st[p]["mode"]})
-            if allow_links and rng.random() < 0.4:
+            if allow_links and rng.random() < 0.25:
                 lp, tgt = rng.choice([("other/link-" + e, "../" + sel[0][0]), (d + "/l." + e, "a." + e),
                                       ("docs/latest", "../README.md"), (d + "/ldir", "sub")])
                 if lp not in st and free(st, lp):
                     st[lp] = {"k": "link", "target": tgt, "tag": new_tag(), "mode": "link"}
                     ops.append({"o": "ln", "path": lp, "target": tgt})
-            elif allow_links and rng.random() < 0.3:
+            elif allow_links and rng.random() < 0.5:
                 links = sorted(p for p, v in st.items() if v["k"] == "link")
                 if links:
                     p = rng.choice(links)
@@ -521,8 +521,96 @@ def settings_for(rng, d, e):
         ("./" + d, e, "nonclean:leading-dot"), ("/" + d, e, "nonclean:absolute"), (d + "/../" + d, e, "nonclean:dotdot"),
         (".", e, "nonclean:dot"),
     ]
-    out += rng.sample(pool, 4)
+    out += rng.sample(pool, 7)
     return out
+
+
+CLI_CFG = """[kernel]
+strict = false
+audit = { mode = false, hash = "SHA-256" }
+timestamp = { default-time = 00:00:00, timezone = { name = "UTC" } }
+input = { storage = %(storage)s, fs = { path = %(checkout)s, dir = %(dir)s, suffix = %(ext)s }, git = { repo = %(repo)s, ref = %(ref)s, dir = %(dir)s, suffix = %(ext)s } }
+[transaction]
+accounts = { path = "none" }
+commodities = { path = "none" }
+tags = { path = "none" }
+[report]
+report-timezone = "UTC"
+scale = { min = 0, max = 28 }
+targets = [ "balance" ]
+balance = { title = "BALANCE" }
+balance-group = { title = "BALANCE GROUP", group-by = "month" }
+register = { title = "REGISTER", timestamp-style = "full" }
+[export]
+targets = [ "identity" ]
+equity = { equity-account = "Equity:Balance" }
+"""
+
+CLI_ROUTES_VIA = ["git-cfg+commit-or-ref", "git-storage-cfg", "fs-storage-cfg"]
+CLI_ROUTES_DIRECT = ["git-args", "fs-args"]
+_cli_seq = [0]
+
+
+def toml_s(s):
+    return json.dumps(s, ensure_ascii=False)
+
+
+def run_cli(ic):
+    """run the real binary for one implementation case that carries a `cli` route; -> dict(rc, identity, meta)"""
+    route = ic["cli"]
+    with _build_lock:
+        _cli_seq[0] += 1
+        n = _cli_seq[0]
+    work = os.path.join(ROOT, "cli", "%d-%d" % (os.getpid(), n))
+    out = os.path.join(work, "out")
+    os.makedirs(out)
+    sel = ic["sel"]
+    cfg = CLI_CFG % {
+        "storage": toml_s("fs" if route.startswith("fs") else "git"),
+        "checkout": toml_s(ic["checkout"]), "dir": toml_s(ic["dir"]), "ext": toml_s(ic["ext"]),
+        "repo": toml_s(ic["repo"]), "ref": toml_s(sel.get("ref", "HEAD")),
+    }
+    cfgp = os.path.join(work, "tackler.toml")
+    with open(cfgp, "w", encoding="utf-8") as f:
+        f.write(cfg)
+    args = [common.TK_CLI, "--config", cfgp, "--output.dir", out, "--output.prefix", "p"]
+    selarg = ["--input.git.commit", sel["commit"]] if "commit" in sel else ["--input.git.ref", sel["ref"]]
+    if route == "git-args":
+        args += ["--input.git.repository", ic["repo"], "--input.git.dir", ic["dir"]] + selarg
+    elif route == "git-cfg+commit-or-ref":
+        args += selarg
+    elif route == "git-storage-cfg":
+        args += ["--input.storage", "git"]
+    elif route == "fs-args":
+        args += ["--input.fs.dir", os.path.join(ic["checkout"], ic["dir"]) if ic["dir"] else ic["checkout"],
+                 "--input.fs.ext", ic["ext"]]
+    elif route == "fs-storage-cfg":
+        args += ["--input.storage", "fs"]
+    e = dict(os.environ)
+    e["RUST_BACKTRACE"] = "0"
+    p = subprocess.run(args, cwd=work, env=e, stdout=subprocess.PIPE, stderr=subprocess.PIPE, timeout=120)
+    res = {"rc": p.returncode, "identity": None, "meta": {}, "stderr": p.stderr.decode("utf-8", "replace")[-300:]}
+    ip = os.path.join(out, "p.identity.txn")
+    if os.path.exists(ip):
+        res["identity"] = open(ip, encoding="utf-8").read()
+    bp = os.path.join(out, "p.bal.txt")
+    if os.path.exists(bp):
+        for ln in open(bp, encoding="utf-8").read().split("\n"):
+            if ln.startswith("BALANCE"):
+                break
+            if " : " in ln:
+                k, v = ln.split(" : ", 1)
+                res["meta"].setdefault(k.strip(), v)
+    shutil.rmtree(work, ignore_errors=True)
+    return res
+
+
+def identity_descs(text):
+    out = []
+    for ln in (text or "").split("\n"):
+        if ln and not ln.startswith(" ") and " '" in ln:
+            out.append(ln.split(" '", 1)[1])
+    return sorted(out)
 
 
 def is_tag_ancestor_form(case):
@@ -533,11 +621,29 @@ def is_tag_ancestor_form(case):
 
 class C08(PropBase):
     id = "C08"
+    needs_cli = True
+
+    def run_impl(self, impl_cases):
+        """library side through the harness; cases that carry a `cli` route are also run through the real binary"""
+        from concurrent.futures import ThreadPoolExecutor
+        ans = common.run_driver([common.TK_IMPL], impl_cases, jobs=4)
+        idx = [i for i, c in enumerate(impl_cases) if c.get("cli")]
+
+        def one(i):
+            try:
+                return run_cli(impl_cases[i])
+            except Exception as ex:   # noqa: BLE001
+                return {"rc": None, "error": str(ex)[:300], "identity": None, "meta": {}}
+        with ThreadPoolExecutor(max_workers=4) as ex:
+            for i, r in zip(idx, ex.map(one, idx)):
+                if isinstance(ans[i], dict):
+                    ans[i]["cli"] = r
+        return ans
 
     def __init__(self):
         super().__init__()
         self.dist = {"repositories": set(), "commits": set(), "selector_forms": {}, "tree_classes": {}, "via_settings": 0,
-                     "commits_with_symlink": set(), "git_err": 0, "git_ok": 0}
+                     "commits_with_symlink": set(), "git_err": 0, "git_ok": 0, "cli_routes": {}, "cli_ok": 0, "cli_refused": 0}
 
     def tally(self, case, impl):
         d = self.dist
@@ -555,6 +661,9 @@ class C08(PropBase):
             d["via_settings"] += 1
         g = impl.get("git", {}) if isinstance(impl, dict) else {}
         d["git_ok" if g.get("r") == "OK" else "git_err"] += 1
+        if case.get("cli") and isinstance(impl, dict) and impl.get("cli"):
+            d["cli_routes"][case["cli"]] = d["cli_routes"].get(case["cli"], 0) + 1
+            d["cli_ok" if impl["cli"].get("rc") == 0 else "cli_refused"] += 1
         if ck not in d["commits"]:
             d["commits"].add(ck)
             state = replay_states(case["hist"])[case["commit"]]
@@ -575,7 +684,8 @@ class C08(PropBase):
         dist = {"kind": "distribution", "repositories": len(d["repositories"]), "commits": len(d["commits"]),
                 "commits_with_symlink": len(d["commits_with_symlink"]), "selector_forms": d["selector_forms"],
                 "tree_classes (commits containing a file of the class)": d["tree_classes"],
-                "via_settings": d["via_settings"], "git_ok": d["git_ok"], "git_err": d["git_err"]}
+                "via_settings": d["via_settings"], "git_ok": d["git_ok"], "git_err": d["git_err"],
+                "cli_runs_by_route": d["cli_routes"], "cli_exit_0": d["cli_ok"], "cli_exit_nonzero": d["cli_refused"]}
         return self._samples + [dist]
 
     # -- generation
@@ -625,6 +735,26 @@ class C08(PropBase):
                             "hist": hist, "commit": idx, "stage": stage, "sel": f, "dir": sd, "ext": se,
                             "via_settings": via, "repo_form": rng.choice(["worktree", "dotgit"]), "cfg": {},
                         })
+        # a few of them also through the real binary (every route of cli_args::get_input_type)
+        ncli = 8 if tier == "quick" else 6
+        via_cases = [c for c in out if c["via_settings"]]
+        direct_cases = [c for c in out if not c["via_settings"]]
+        picked = rng.sample(via_cases, min(ncli // 2, len(via_cases))) + rng.sample(direct_cases, min(ncli // 2, len(direct_cases)))
+        for c in picked:
+            eff = norm_suffix(c["ext"]) if c["via_settings"] else c["ext"]
+            if c["via_settings"]:
+                routes = ["git-cfg+commit-or-ref", "fs-storage-cfg"]
+                if c["sel"]["how"] == "ref":
+                    routes.append("git-storage-cfg")     # the configured ref must be a reference form
+                    routes.append("git-storage-cfg")
+                if c["ext"] == "txn":
+                    routes.append("git-args")
+            else:
+                routes = ["fs-args"]
+                if eff == "txn":
+                    routes += ["git-args", "git-args"]   # --input.git.* has the fixed extension `txn`
+            c["cli"] = rng.choice(routes)
+            c["kind"] = c["kind"] + "+cli:" + c["cli"]
         return out
 
     # -- the two sides
@@ -637,7 +767,7 @@ class C08(PropBase):
         return {"op": "git", "repo": repo, "dir": case["dir"], "ext": case["ext"],
                 "sel": resolve_selector(case["sel"], cid), "checkout": info["checkouts"][case["commit"]],
                 "via_settings": bool(case.get("via_settings")), "cfg": case.get("cfg", {}),
-                "want": ["txns", "identity", "meta"]}
+                "want": ["txns", "identity", "meta"], "cli": case.get("cli")}
 
     def model_case(self, case):
         info = build_repo(case["hist"])
@@ -734,6 +864,41 @@ class C08(PropBase):
                 "dir_exists": exists, "ext": ext}
 
     def oracle(self, case, impl):
+        r = self.oracle_lib(case, impl)
+        if r is None and case.get("cli"):
+            r = self.oracle_cli(case, impl)
+        return r
+
+    def oracle_cli(self, case, impl):
+        """the real binary: same data as the library on the same input route, metadata names the selected commit"""
+        cli = impl.get("cli")
+        route = case["cli"]
+        if not cli or cli.get("rc") is None:
+            return {"sig": "cli-not-run", "what": "CLI run missing: %s" % str(cli)[:200]}
+        side = impl["git"] if route.startswith("git") else impl.get("fs")
+        info = build_repo(case["hist"])
+        cid = info["ids"][case["commit"]]
+        lib_ok = side is not None and side.get("r") == "OK"
+        if lib_ok and side.get("n", 0) > 0:
+            if cli["rc"] != 0:
+                return {"sig": "cli-failed", "what": "route %s: library loads %d txns, binary exits %s: %s" % (
+                    route, side.get("n"), cli["rc"], cli.get("stderr", "")[-200:])}
+            if cli["identity"] != side["out"]["identity"].get("v"):
+                return {"sig": "cli-ne-lib", "what": "route %s: identity export of the binary differs from the library's (%s vs %s)" % (
+                    route, identity_descs(cli["identity"])[:8], identity_descs(side["out"]["identity"].get("v"))[:8])}
+            if route.startswith("git"):
+                if cli["meta"].get("commit") != cid:
+                    return {"sig": "cli-meta-commit", "what": "route %s: report metadata commit %s, selected %s" % (
+                        route, cli["meta"].get("commit"), cid)}
+            elif "commit" in cli["meta"]:
+                return {"sig": "cli-fs-has-git-meta", "what": "fs route reports git metadata"}
+        else:
+            if cli["rc"] == 0:
+                return {"sig": "cli-ok-lib-not", "what": "route %s: binary succeeds (%s) where the library fails or loads nothing (%s)" % (
+                    route, identity_descs(cli["identity"])[:8], str(side)[:200])}
+        return None
+
+    def oracle_lib(self, case, impl):
         if impl.get("r") != "OK":
             return {"sig": "driver", "what": "harness answer %s" % str(impl)[:300]}
         g, f = impl["git"], impl.get("fs")
